@@ -489,6 +489,15 @@ def r7_no_one_shot_state(ctx):
         raise AnalysisError('one-shot recogniser does not match its positive example')
 
 
+def r10_shared_visitor_counters(ctx):
+    """an acknowledgement visitor may be handed several error trees: the counts it writes for one of them (sets per group,
+    groups per interchange, segments per set) are reset where the header that opens their scope is written, so that
+    they do not carry over from the tree acknowledged before.  C06.R6 (shared)."""
+    from . import c06
+    for o in c06.r6_997_counter(ctx):
+        yield o
+
+
 RULES = [
     Rule('C18.R1', 'mutable default arguments are never mutated (directly or through a stored alias)', r1_mutable_defaults, floor=4),
     Rule('C18.R2', 'no mutated module/class-level state, no global, no caching decorators', r2_shared_state, floor=22),
@@ -498,5 +507,6 @@ RULES = [
     Rule('C18.R7', 'no object/class/module state is a one-shot iterator (map/filter/zip/generator)', r7_no_one_shot_state, floor=1),
     Rule('C18.R8', 'scripts: every output stream passed to x12n_document inside a loop over input files is defined in that iteration (reaching definitions)', r8_per_document_streams, floor=5),
     Rule('C18.R9', 'the parameter object is read-only for the library (no .set, no store into its table, also through copies)', r9_parameters_are_read_only, floor=1),
+    Rule('C18.R10', 'shared with C06.R6: the hand-kept counters of the 997 visitor are reset where their header is written', r10_shared_visitor_counters, floor=6),
     Rule('C18.R6', 'loaded map nodes keep no per-call state (shared with C16.R9)', r6_map_nodes_read_only, floor=2),
 ]
